@@ -58,4 +58,54 @@ example :
               .pull, .fcheck, .submit, .put, .pull, .fcheck, .submit], rfl⟩, ?_⟩
   decide
 
+/-- the filling state: the consumer waits on element 0 (taken off the queue), `k` elements queued,
+    every pulled element submitted to the pool and none started -/
+def fillState (k : Nat) : State :=
+  { pulled := 1 + k, fpc := .idle, queue := (List.range k).map (fun j => QItem.item (j + 1)),
+    toStop := false, cpc := .wait 0, out := [], raised := none, closeReq := false,
+    pending := List.range (1 + k), running := [], finished := [], cancelled := [], calls := [] }
+
+theorem fill_reachable (c : Cfg) (hp : ∀ i, c.preFail i = false) (k : Nat) (hk : k ≤ c.cap + 1)
+    (hn : 1 + k ≤ c.n) : Reachable c (fillState k) := by
+  induction k with
+  | zero =>
+    refine ⟨[.pull, .fcheck, .submit, .put, .get], ?_⟩
+    have h0 : 0 < c.n := by omega
+    simp [Core.run, step, init, fillState, h0, hp]
+  | succ k ih =>
+    have hr := ih (by omega) (by omega)
+    have h1 : Core.Reach (step c) init
+        { fillState k with fpc := .check (1 + k), pulled := 1 + k + 1 } :=
+      Core.Reach.tail hr (a := .pull) (by
+        have : 1 + k < c.n := by omega
+        simp [step, fillState, this])
+    have h2 : Core.Reach (step c) init
+        { fillState k with fpc := .sub (1 + k), pulled := 1 + k + 1 } :=
+      Core.Reach.tail h1 (a := .fcheck) (by simp [step, fillState])
+    have h3 : Core.Reach (step c) init
+        { fillState k with fpc := .hold (1 + k), pulled := 1 + k + 1,
+                           pending := List.range (1 + k) ++ [1 + k] } :=
+      Core.Reach.tail h2 (a := .submit) (by simp [step, fillState, hp])
+    have h4 := Core.Reach.tail h3 (a := .put) (s2 := fillState (k + 1)) (by
+      have : k < c.cap + 1 := by omega
+      simp [step, fillState, this, List.range_succ]
+      refine ⟨by omega, by omega, ?_⟩
+      rw [show 1 + (k + 1) = (1 + k) + 1 by omega, List.range_succ])
+    exact h4
+
+/-- **C08, tightness for every capacity**: the bound `capacity + 3` of `C08_fifo_lookahead` is
+    attained for every `cap` (and every `conc`, flags, result plan) as soon as the source has
+    `cap + 3` elements and no preprocessor failure shortens the run — the constant cannot be
+    lowered for any capacity, not only for the sample of the `example` above. -/
+theorem C08_fifo_lookahead_attained (c : Cfg) (hp : ∀ i, c.preFail i = false) (hn : c.cap + 3 ≤ c.n) :
+    ∃ s, Reachable c s ∧ s.pulled - handed s = c.cap + 3 := by
+  have hr := fill_reachable c hp (c.cap + 1) (Nat.le_refl _) (by omega)
+  have h1 : Core.Reach (step c) init
+      { fillState (c.cap + 1) with fpc := .check (1 + (c.cap + 1)), pulled := 1 + (c.cap + 1) + 1 } :=
+    Core.Reach.tail hr (a := .pull) (by
+      have : 1 + (c.cap + 1) < c.n := by omega
+      simp [step, fillState, this])
+  refine ⟨_, h1, ?_⟩
+  simp [fillState, handed]; omega
+
 end Fifo
